@@ -32,7 +32,9 @@ def getSmiles (valid : List Char → Bool) (o : Obj) (tfLazy : Bool) (mergedLazy
     | some c => some (c, o)
     | none =>
       match mergedLazy with
-      | some m => some (release valid m, { o with treeFull := tfLazy, cached := some (release valid m) })
+      | some m =>
+        -- a tree_only object keeps the tree (and the flag) it was built with: the walk for the molecule is a local one
+        some (release valid m, { o with treeFull := if o.treeOnly then o.treeFull else tfLazy, cached := some (release valid m) })
       | none => none
 
 /-- what may leave the object -/
